@@ -538,9 +538,24 @@ func runC18(res *hx.Result, rng *hx.Rng, tier string, outdir string) {
 	if tier == "thorough" {
 		nRT, nText = 9000, 45000
 	}
-	cf := hx.NewCases(outdir, "C18", "From QV Require Import Sig SigParse Idl C18Run.", "mismatches gcases pcases", res,
+	cf := hx.NewCases(outdir, "C18", "From QV Require Import Sig SigParse Idl C18Run.", "mismatches cfg gcases pcases", res,
 		"gcases", "gcase", "pcases", "pcase")
 	cf.Extra = append(cf.Extra, "Open Scope string_scope.")
+	// defect probe first (the case files need its verdict): the witness of
+	// C18_refuted_self_referential_struct_crash either ends the child process or is refused
+	selfRefWitness := "struct A\n a: A\nend\ninterface I\n fn f(x: A)\nend"
+	probes := parseAll(outdir, []string{selfRefWitness,
+		"interface I\n fn f(a: strange)\nend\nstruct strange\n a: int32\nend",
+		"interface I\n fn f(a: Tuple<>, b: nothing)\nend",
+		"interface I\n sig s() //uid:0\nend"})
+	probe := probes[0]
+	guard := probe.Res == 0
+	word := probes[1].Res == 1 && len(probes[1].Objs) == 1 && len(probes[1].Objs[0].Methods) == 1 && probes[1].Objs[0].Methods[0].Params == "((i)<strange,a>)"
+	void := probes[2].Res == 1 && len(probes[2].Objs) == 1 && len(probes[2].Objs[0].Methods) == 1 && probes[2].Objs[0].Methods[0].Params == "(()v)"
+	uid0 := probes[3].Res == 1 && len(probes[3].Objs) == 1 && len(probes[3].Objs[0].Signals) == 1 && probes[3].Objs[0].Signals[0].Uid == 0
+	cf.Extra = append(cf.Extra, fmt.Sprintf("Definition cfg := {| c_guard := %s; c_word := %s; c_void := %s; c_uid0 := %s |}.",
+		hx.Bool(guard), hx.Bool(word), hx.Bool(void), hx.Bool(uid0)))
+	res.Notes = append(res.Notes, fmt.Sprintf("parser repairs observed: guard=%v word-boundary=%v void/empty-tuple=%v uid0=%v", guard, word, void, uid0))
 
 	var cases []rtCase
 	// ---- safe round-trip cases ----
@@ -602,18 +617,17 @@ func runC18(res *hx.Result, rng *hx.Rng, tier string, outdir string) {
 	// random unsafe mixes
 	for i := 0; i < nRT/6; i++ {
 		pool := genPool(rng, 1+rng.Intn(3), map[string]bool{"I": true})
-		o := genOpts{uidZero: rng.Chance(0.3), nonTuple: rng.Chance(0.5)}
-		known := "non_tuple_signal_property"
-		if o.uidZero {
-			known = "uid_zero"
+		o := genOpts{uidZero: true}
+		known := "uid_zero"
+		if rng.Bool() {
+			o = genOpts{nonTuple: true}
+			known = "non_tuple_signal_property"
 		}
 		cases = append(cases, rtCase{pkg: "p", objs: []oObject{genObject(rng, "I", pool, "_u_", o)}, known: known,
 			desc: "generated with uid 0 / non-tuple signatures allowed", nontr: true})
 	}
 
 	// ---- switch probes: the witnesses of C18_refuted_* ----
-	type probe struct{ key, pkgText string }
-	_ = probe{}
 
 	// ---- run GenerateIDL on every case ----
 	var texts []string
@@ -858,7 +872,7 @@ func runC18(res *hx.Result, rng *hx.Rng, tier string, outdir string) {
 		cf.Add("pcases", fmt.Sprintf("P %s %d%%N %s", idlStr(p.text), r, objsTerm(o.Objs)), "parse "+p.desc)
 	}
 	if !crashSeen {
-		res.Switch("self_referential_struct_crash", false, "")
+		res.Switch("self_referential_struct_crash", probe.Res == 2, fmt.Sprintf("ParseIDL on %q ends the process: %s", selfRefWitness, probe.Error))
 	}
 	cf.Flush()
 }
